@@ -47,6 +47,8 @@ def features(b):
     f = set()
     seen = {}
     for s in b['steps']:
+        if s['a'] == 'Burst':
+            f.add('concurrent-subscribes')
         if s['a'] == 'Subscribe' and s['g']:
             k = (s['g'], s['c'])
             if k in seen:
@@ -61,6 +63,8 @@ def nontrivial(b):
     for s in b['steps']:
         if s['a'] == 'Subscribe' and s['g'] and not s.get('bad'):
             n[s['g']] = n.get(s['g'], 0) + 1
+        if s['a'] == 'Burst':
+            n[s['g']] = n.get(s['g'], 0) + len(s['cs'])
     acts = {s['a'] for s in b['steps']}
     return max(n.values() or [0]) >= 2 and bool(acts & {'LoopExit', 'Cancel'})
 
@@ -97,8 +101,12 @@ def judge(rep, behaviours, trace):
         line, action, name = fl[0]
         b = by_id[tid]
         sig = 'C13|%s|%s|%s' % (name, action, features(b))
+        rb = [b]
+        if any(st['a'] == 'Burst' for st in b['steps']):
+            # concurrent subscribes: the schedule is the Go runtime's; the replay repeats the behaviour
+            rb = [dict(b, id=i + 1) for i in range(50)]
         rep.classify(sig, 'first failing step: line %d action %s check %s' % (line, action, name),
-                     {'behaviours': [b]})
+                     {'behaviours': rb})
     return res
 
 
@@ -185,6 +193,8 @@ def label_step(lab):
     name, args = m.group(1), core.tlaval.parse('<<' + m.group(2) + '>>')
     if name == 'MCSubscribe':
         return {'a': 'Subscribe', 'g': args[0], 'c': args[1], 'e': args[2], 'bad': args[3]}
+    if name == 'MCBurst':
+        return {'a': 'Burst', 'g': args[0], 'cs': [args[1], args[2]], 'e': args[3]}
     if name == 'MCCancel':
         return {'a': 'Cancel', 's': args[0]}
     if name == 'MCLoopExit':
